@@ -311,7 +311,9 @@ func TestC12Concurrent(t *testing.T) {
 					for _, cl := range closes {
 						c := Case2{RTOms: o.rto, A: o.a, B: o.b, OffB: off, Dup: dup, Order: ord, Close: cl}
 						rep.Current(map[string]any{"part": "concurrent", "case": c, "sig_hint": "c12-concurrent:case-never-quiesces(lock-held-or-spin)"})
+						stop := r.Guard(30*time.Second, "c12-concurrent:case-never-quiesces(lock-held-or-spin)", func() any { return c })
 						res := runPair(t, c)
+						stop()
 						r.Evaluations++
 						classes[res.class]++
 						for _, v := range res.viols {
